@@ -62,17 +62,20 @@ def getCategory (h : Tunnox.C09.HybridStorage) (key : String) : Nat :=
 end hybrid.Storage
 
 namespace Skel
+def CreateDedicatedConnection : List String := ["connections.Load", "connections.Delete", "getNodeAddr", "d.DialContext", "connections.Store"]
 def GetNodeAddress : List String := ["storage.Get"]
 def LookupWaitingTunnel : List String := ["makeKey", "storage.Get", "json.Marshal", "json.Unmarshal", "json.Unmarshal", "json.Unmarshal", "After", "storage.Delete"]
 def RegisterNodeAddress : List String := ["storage.Set"]
 def RegisterWaitingTunnel : List String := ["time.Now", "now.Add", "makeKey", "storage.Set"]
 def RemoveWaitingTunnel : List String := ["makeKey", "storage.Delete"]
+def forwardToSourceNode : List String := ["tunnelConnMgr.CreateDedicatedConnection", "crossNodePool.Get", "WriteFrame", "runCrossNodeDataForwardDedicated"]
 def hybrid_Delete : List String := ["getCategory", "getCacheForKey", "cache.Delete", "cache.Delete", "persistent.Delete", "cache.Delete", "persistent.Delete"]
 def hybrid_Get : List String := ["getCategory", "getCacheForKey", "cache.Get", "getSharedPersistent", "cache.Get", "persistent.Get"]
 def hybrid_Set : List String := ["getCategory", "setPersistent", "setShared", "setSharedPersistent", "setRuntime"]
 def hybrid_getCacheForKey : List String := ["isShared"]
 def hybrid_setShared : List String := ["getCacheForKey", "cache.Set"]
 def lookupTunnelRouting : List String := ["ctx.Done", "tunnelRouting.LookupWaitingTunnel", "time.Sleep"]
+def processCrossNodeForward : List String := ["handleLocalBridgeWait", "forwardToSourceNode"]
 def runBridgeLifecycle_c09 : List String := ["bridge.Close", "bridge.Start", "bridgeLock.Lock", "delete", "bridgeLock.Unlock", "tunnelRouting.RemoveWaitingTunnel"]
 def startSourceBridge : List String := ["cloudControl.GetPortMapping", "NewTunnelBridge", "bridgeLock.Lock", "bridgeLock.Unlock", "bridgeLock.Unlock", "tunnelRouting.RegisterWaitingTunnel", "bridgeManager.NotifyTunnelReady", "notifyTargetClientToOpenTunnel", "runBridgeLifecycle"]
 end Skel
